@@ -161,9 +161,9 @@ def run_batch(prop: str, tier: str, seed: int, n_runs: int | None, budget_s: flo
     deadline = t0 + budget_s if budget_s else None
     total = n_runs if n_runs else 10**9
     pending = set()
-    # systematic layer (C02 thorough): every {E,U,R}-word up to length 6, once
+    # systematic layer (C02, both tiers): every {E,U,R}-word up to length 6, once
     sys_left = []
-    if prop == "C02" and tier == "thorough":
+    if prop == "C02":
         n_words = len(runner.systematic_words())
         sys_left = [(runner.SYSTEMATIC_BASE + i, min(CHUNK * 4, n_words - i)) for i in range(0, n_words, CHUNK * 4)]
     with cf.ProcessPoolExecutor(max_workers=jobs, mp_context=ctx) as ex:
